@@ -3,9 +3,8 @@
    examples and the refutation witnesses.
 
    unm        = Core.unm, the reference semantics of the composite unmarshal routines at /repo HEAD
-                BEFORE the two C03 repairs (proposed_fixes/C03-*.diff);
-   unm_fixed  = the same semantics with the two repairs (local copy in Model/CoreC03.v; it becomes
-                Core.unm when Core.v receives the edit written down in notes/C03.md);
+                (with the two C03 repairs: f089b75 fixed-tuple arity, 6b21d1e TypedDict required keys);
+   unm_pinned = frozen copy of Core.unm before those repairs (Model/CoreC03.v), only for the witnesses;
    conforms   = the statement: structural type checker over Python values (Model/CoreC03.v);
    LeafLaws   = what is assumed of the scalar routines (sampled on the implementation on every run):
                 a leaf routine returns an instance of its leaf type, the None routine returns None. *)
@@ -14,37 +13,23 @@ Import ListNotations.
 Require Import TL.Model.Core TL.Model.CoreTables TL.Model.CoreC03 TL.Proofs.CoreC03.
 
 (* the full statement, for a given semantics u of unmarshal: every input x whatsoever *)
-Definition C03_statement (u : runtime -> env -> (nat -> nat -> bool) -> nat -> ty -> pv -> res pv) : Prop :=
-  forall rt E leaf_ok required, LeafLaws rt leaf_ok -> wf_env E ->
-  forall fuel T x v, u rt E required fuel T x = Ok v -> exists n, conforms rt E leaf_ok required n T v = true.
+Definition C03_statement (u : runtime -> env -> nat -> ty -> pv -> res pv) : Prop :=
+  forall rt E leaf_ok, LeafLaws rt leaf_ok -> wf_env E ->
+  forall fuel T x v, u rt E fuel T x = Ok v -> exists n, conforms rt E leaf_ok n T v = true.
 
-Definition C03_full : Prop := C03_statement (fun rt E _ => unm rt E).
-
-(* ---- the repaired routines: the full statement, no guard ---- *)
-Theorem C03_conforms_fixed : C03_statement unm_fixed.
-Proof. intros rt E lo req L WF fuel T x v H. exists fuel. exact (conforms_fixed rt E lo req L WF fuel T x v H). Qed.
+(* ---- the full statement, no guard ---- *)
+Theorem C03_conforms : C03_statement unm.
+Proof. intros rt E lo L WF fuel T x v H. exists fuel. exact (unm_conforms rt E lo L WF fuel T x v H). Qed.
 
 (* same, with the fuel made explicit: the checker needs no more fuel than the conversion used,
    and stays true with more *)
-Theorem C03_conforms_fixed_fuel : forall rt E leaf_ok required, LeafLaws rt leaf_ok -> wf_env E ->
-  forall fuel T x v m, unm_fixed rt E required fuel T x = Ok v -> fuel <= m ->
-  conforms rt E leaf_ok required m T v = true.
+Theorem C03_conforms_fuel : forall rt E leaf_ok, LeafLaws rt leaf_ok -> wf_env E ->
+  forall fuel T x v m, unm rt E fuel T x = Ok v -> fuel <= m ->
+  conforms rt E leaf_ok m T v = true.
 Proof.
-  intros rt E lo req L WF fuel T x v m H Hle.
-  exact (conforms_mono rt E lo req fuel m T v Hle (conforms_fixed rt E lo req L WF fuel T x v H)).
+  intros rt E lo L WF fuel T x v m H Hle.
+  exact (conforms_mono rt E lo fuel m T v Hle (unm_conforms rt E lo L WF fuel T x v H)).
 Qed.
-
-(* ---- the routines as they are at /repo HEAD: everywhere except fixed tuples and TypedDicts that
-        have a required key (c03_guard) ---- *)
-Theorem C03_conforms : forall rt E leaf_ok required, LeafLaws rt leaf_ok -> wf_env E ->
-  forall fuel T x v, c03_guard E required fuel T = true -> unm rt E fuel T x = Ok v ->
-  exists n, conforms rt E leaf_ok required n T v = true.
-Proof. intros rt E lo req L WF fuel T x v G H. exists fuel. exact (conforms_guarded rt E lo req L WF fuel T x v G H). Qed.
-
-(* under the guard the two semantics are the same function *)
-Theorem C03_repairs_change_nothing_else : forall rt E required fuel T,
-  c03_guard E required fuel T = true -> forall x, unm rt E fuel T x = unm_fixed rt E required fuel T x.
-Proof. intros rt E req fuel T G x. exact (unm_agrees_under_guard rt E req fuel T G x). Qed.
 
 (* ---- a toy runtime: leaves are the identity on atoms, text is not parsed ---- *)
 Definition toy_rt : runtime :=
@@ -72,14 +57,15 @@ Qed.
 (* class 0: total TypedDict {a: leaf 0};  class 1: dataclass (a: leaf 0, b: tuple[leaf 0, leaf 1] | None = None) *)
 Definition toy_env : env := fun n =>
   match n with
-  | 0 => Some (NClass {| cflavour := FTypedDict; cfields := [ {| fname := 0; fty := TLeaf 0; fdefault := None |} ] |})
+  | 0 => Some (NClass {| cflavour := FTypedDict; cfields := [ {| fname := 0; fty := TLeaf 0; fdefault := None |} ];
+                         crequired := [0] |})
   | 1 => Some (NClass {| cflavour := FDataclass;
                          cfields := [ {| fname := 0; fty := TLeaf 0; fdefault := None |};
                                       {| fname := 1; fty := TUnion [TTuple [TLeaf 0; TLeaf 1]; TNone];
-                                         fdefault := Some (PAtom 0) |} ] |})
+                                         fdefault := Some (PAtom 0) |} ];
+                         crequired := [] |})
   | _ => None
   end.
-Definition all_required (c f : nat) : bool := true.
 
 Lemma toy_wf : wf_env toy_env.
 Proof.
@@ -88,72 +74,71 @@ Proof.
   - repeat constructor; cbn; intuition discriminate.
 Qed.
 
-(* non-vacuity of C03_conforms_fixed / C03_conforms: the hypotheses hold of a non-trivial instance
-   (a dataclass holding a fixed tuple inside a union; a list of mappings for the guarded form) *)
+(* non-vacuity: the hypotheses hold of a non-trivial instance (a list of dataclasses holding a fixed
+   tuple inside a union and a defaulted field; a list of mappings with a union value) *)
 Example C03_hyps_satisfiable :
   LeafLaws toy_rt toy_leaf_ok /\ wf_env toy_env /\
-  unm_fixed toy_rt toy_env all_required 6 (TSeq KList (TName 1))
+  unm toy_rt toy_env 6 (TSeq KList (TName 1))
       (PSeq KTuple [PDict KDict [(PKey 0, PAtom 7); (PKey 1, PSeq KList [PAtom 8; PAtom 9; PAtom 10])]; PDict KDict [(PKey 0, PAtom 3)]])
     = Ok (PSeq KList [PObj 1 [(0, PAtom 7); (1, PSeq KTuple [PAtom 8; PAtom 9])]; PObj 1 [(0, PAtom 3); (1, PAtom 0)]]) /\
-  conforms toy_rt toy_env toy_leaf_ok all_required 6 (TSeq KList (TName 1))
+  conforms toy_rt toy_env toy_leaf_ok 6 (TSeq KList (TName 1))
       (PSeq KList [PObj 1 [(0, PAtom 7); (1, PSeq KTuple [PAtom 8; PAtom 9])]; PObj 1 [(0, PAtom 3); (1, PAtom 0)]]) = true /\
-  c03_guard toy_env all_required 6 (TSeq KList (TMap KDict (TLeaf 0) (TUnion [TNone; TLeaf 1]))) = true /\
   unm toy_rt toy_env 6 (TSeq KList (TMap KDict (TLeaf 0) (TUnion [TNone; TLeaf 1])))
       (PSeq KList [PDict KOrderedDict [(PAtom 1, PAtom 0); (PAtom 2, PAtom 5)]])
-    = Ok (PSeq KList [PDict KDict [(PAtom 1, PAtom 0); (PAtom 2, PAtom 5)]]).
+    = Ok (PSeq KList [PDict KDict [(PAtom 1, PAtom 0); (PAtom 2, PAtom 5)]]) /\
+  unm toy_rt toy_env 6 (TName 0) (PDict KDict [(PKey 0, PAtom 4); (PKey 9, PAtom 1)]) = Ok (PDict KDict [(PKey 0, PAtom 4)]).
 Proof. split; [exact toy_laws|]. split; [exact toy_wf|]. vm_compute. repeat split. Qed.
 
-(* the checker is not trivially true: wrong class, wrong arity, undeclared key, missing required key *)
+(* the checker is not trivially true: wrong class, wrong arity, undeclared key, missing required key,
+   missing field, raw dict inside list[Class] *)
 Example C03_conforms_rejects :
-  conforms toy_rt toy_env toy_leaf_ok all_required 6 (TSeq KList (TLeaf 0)) (PSeq KTuple [PAtom 1]) = false /\
-  conforms toy_rt toy_env toy_leaf_ok all_required 6 (TTuple [TLeaf 0; TLeaf 1]) (PSeq KTuple [PAtom 1; PAtom 2; PAtom 3]) = false /\
-  conforms toy_rt toy_env toy_leaf_ok all_required 6 (TName 0) (PDict KDict [(PKey 0, PAtom 1); (PKey 5, PAtom 1)]) = false /\
-  conforms toy_rt toy_env toy_leaf_ok all_required 6 (TName 0) (PDict KDict []) = false /\
-  conforms toy_rt toy_env toy_leaf_ok all_required 6 (TName 1) (PObj 1 [(0, PAtom 7)]) = false /\
-  conforms toy_rt toy_env toy_leaf_ok all_required 6 (TSeq KList (TName 1)) (PSeq KList [PDict KDict [(PKey 0, PAtom 7)]]) = false.
+  conforms toy_rt toy_env toy_leaf_ok 6 (TSeq KList (TLeaf 0)) (PSeq KTuple [PAtom 1]) = false /\
+  conforms toy_rt toy_env toy_leaf_ok 6 (TTuple [TLeaf 0; TLeaf 1]) (PSeq KTuple [PAtom 1; PAtom 2; PAtom 3]) = false /\
+  conforms toy_rt toy_env toy_leaf_ok 6 (TName 0) (PDict KDict [(PKey 0, PAtom 1); (PKey 5, PAtom 1)]) = false /\
+  conforms toy_rt toy_env toy_leaf_ok 6 (TName 0) (PDict KDict []) = false /\
+  conforms toy_rt toy_env toy_leaf_ok 6 (TName 1) (PObj 1 [(0, PAtom 7)]) = false /\
+  conforms toy_rt toy_env toy_leaf_ok 6 (TSeq KList (TName 1)) (PSeq KList [PDict KDict [(PKey 0, PAtom 7)]]) = false.
 Proof. vm_compute. repeat split. Qed.
 
-(* ---- refutations of the full statement for the unrepaired routines ---- *)
-(* #15a  unmarshal(tuple[A, B], [a]) returns the 1-tuple (a,): zip truncates *)
+(* ---- on record: the routines BEFORE the repairs (unm_pinned) violated the statement ---- *)
+(* #15a  unmarshal(tuple[A, B], [a]) returned the 1-tuple (a,): zip truncates *)
 Theorem C03_refuted_short_tuple :
-  exists rt E leaf_ok required fuel T x v,
-    LeafLaws rt leaf_ok /\ wf_env E /\ unm rt E fuel T x = Ok v /\
-    forall n, conforms rt E leaf_ok required n T v = false.
+  exists rt E leaf_ok fuel T x v,
+    LeafLaws rt leaf_ok /\ wf_env E /\ unm_pinned rt E fuel T x = Ok v /\
+    forall n, conforms rt E leaf_ok n T v = false.
 Proof.
-  exists toy_rt, toy_env, toy_leaf_ok, all_required, 3, (TTuple [TLeaf 0; TLeaf 1]), (PSeq KList [PAtom 1]), (PSeq KTuple [PAtom 1]).
+  exists toy_rt, toy_env, toy_leaf_ok, 3, (TTuple [TLeaf 0; TLeaf 1]), (PSeq KList [PAtom 1]), (PSeq KTuple [PAtom 1]).
   split; [exact toy_laws|]. split; [exact toy_wf|]. split; [vm_compute; reflexivity|].
   intros [|n]; [reflexivity|]. cbn. apply andb_false_r.
 Qed.
 
-(* #15b  unmarshal(TD, {}) returns {} for a total TypedDict TD: required keys are not checked *)
+(* #15b  unmarshal(TD, {}) returned {} for a total TypedDict TD: required keys were not checked *)
 Theorem C03_refuted_typeddict :
-  exists rt E leaf_ok required fuel T x v,
-    LeafLaws rt leaf_ok /\ wf_env E /\ unm rt E fuel T x = Ok v /\
-    forall n, conforms rt E leaf_ok required n T v = false.
+  exists rt E leaf_ok fuel T x v,
+    LeafLaws rt leaf_ok /\ wf_env E /\ unm_pinned rt E fuel T x = Ok v /\
+    forall n, conforms rt E leaf_ok n T v = false.
 Proof.
-  exists toy_rt, toy_env, toy_leaf_ok, all_required, 3, (TName 0), (PDict KDict []), (PDict KDict []).
+  exists toy_rt, toy_env, toy_leaf_ok, 3, (TName 0), (PDict KDict []), (PDict KDict []).
   split; [exact toy_laws|]. split; [exact toy_wf|]. split; [vm_compute; reflexivity|].
   intros [|n]; reflexivity.
 Qed.
 
-Theorem C03_full_is_false : ~ C03_full.
+Theorem C03_pinned_is_false : ~ C03_statement unm_pinned.
 Proof.
-  intros F. destruct C03_refuted_short_tuple as [rt [E [lo [req [fuel [T [x [v [L [WF [H Hn]]]]]]]]]]].
-  destruct (F rt E lo req L WF fuel T x v H) as [n Hc]. rewrite (Hn n) in Hc. discriminate.
+  intros F. destruct C03_refuted_short_tuple as [rt [E [lo [fuel [T [x [v [L [WF [H Hn]]]]]]]]]].
+  destruct (F rt E lo L WF fuel T x v H) as [n Hc]. rewrite (Hn n) in Hc. discriminate.
 Qed.
 
-(* the repaired semantics rejects both witnesses *)
-Example C03_fixed_rejects_witnesses :
-  unm_fixed toy_rt toy_env all_required 3 (TTuple [TLeaf 0; TLeaf 1]) (PSeq KList [PAtom 1]) = Raise EValue /\
-  unm_fixed toy_rt toy_env all_required 3 (TName 0) (PDict KDict []) = Raise EType /\
-  unm_fixed toy_rt toy_env all_required 3 (TTuple [TLeaf 0; TLeaf 1]) (PSeq KList [PAtom 1; PAtom 2; PAtom 3])
+(* the repaired semantics rejects both witnesses and still drops extra members *)
+Example C03_unm_rejects_witnesses :
+  unm toy_rt toy_env 3 (TTuple [TLeaf 0; TLeaf 1]) (PSeq KList [PAtom 1]) = Raise EValue /\
+  unm toy_rt toy_env 3 (TName 0) (PDict KDict []) = Raise EType /\
+  unm toy_rt toy_env 3 (TTuple [TLeaf 0; TLeaf 1]) (PSeq KList [PAtom 1; PAtom 2; PAtom 3])
     = Ok (PSeq KTuple [PAtom 1; PAtom 2]).
 Proof. vm_compute. repeat split. Qed.
 
-Print Assumptions C03_conforms_fixed.
-Print Assumptions C03_conforms_fixed_fuel.
 Print Assumptions C03_conforms.
-Print Assumptions C03_repairs_change_nothing_else.
+Print Assumptions C03_conforms_fuel.
 Print Assumptions C03_refuted_short_tuple.
 Print Assumptions C03_refuted_typeddict.
-Print Assumptions C03_full_is_false.
+Print Assumptions C03_pinned_is_false.
